@@ -22,6 +22,7 @@ import (
 	"net/http/httptest"
 	"net/url"
 	"path"
+	"runtime"
 	"sort"
 	"strings"
 	"testing"
@@ -283,7 +284,7 @@ func (g *c09Gen) section() verifh.Section {
 				ops = append(ops, "setna h="+r.PickS("801", "802", "418"))
 			}
 		}
-		ops = append(ops, fmt.Sprintf("req m=%s p=%s n=%d", m, p, rep))
+		ops = append(ops, fmt.Sprintf("req m=%s p=%s n=%d", m, p, rep)+c09Extras(r))
 	}
 	// late registrations: routes added after requests were already served
 	if r.Chance(1, 4) {
@@ -402,6 +403,45 @@ func c09GenAll(r *verifh.Rng) []verifh.Section {
 	return secs
 }
 
+// c09Extras: the request arrives with variables of an outer router in its context (ctx=), the user handler that
+// runs ends in every way a handler can (beh=).
+func c09Extras(r *verifh.Rng) string {
+	out := ""
+	if r.Chance(1, 6) {
+		out += " ctx=" + r.PickS("x=outer", "x=outer", "q=1,x=2", "id=7", "y=o,z=o", "")
+	}
+	if r.Chance(1, 6) {
+		out += " beh=" + r.PickS("w201", "w204", "w301", "w404", "w405", "w500", "w503", "perr", "pstr", "pabort", "goexit")
+	}
+	return out
+}
+
+func c09ArgOpt(op []string, key string) (string, bool) {
+	for _, t := range op[1:] {
+		if strings.HasPrefix(t, key) {
+			return t[len(key):], true
+		}
+	}
+	return "", false
+}
+
+// c09Serve runs ServeHTTP in a goroutine of its own and reports how the call ended: "" / "panic" / "goexit".
+func c09Serve(h http.Handler, w http.ResponseWriter, r *http.Request) string {
+	res := make(chan string, 1)
+	go func() {
+		how := "goexit"
+		defer func() {
+			if recover() != nil {
+				how = "panic"
+			}
+			res <- how
+		}()
+		h.ServeHTTP(w, r)
+		how = ""
+	}()
+	return <-res
+}
+
 func c09Arg(op []string, key string) string {
 	for _, t := range op[1:] {
 		if strings.HasPrefix(t, key) {
@@ -422,9 +462,34 @@ func TestVerifC09(t *testing.T) {
 		rt := NewRouter()
 		var hits []c09Hit
 		var chits []string
+		beh, ended := "", ""
+		act := func(w http.ResponseWriter, route bool) {
+			switch {
+			case beh == "":
+				return
+			case beh[0] == 'w':
+				if route {
+					ended = beh
+					w.WriteHeader(verifh.Atoi(beh[1:]))
+				}
+			case beh == "perr":
+				ended = beh
+				panic(errors.New("c09: handler failed"))
+			case beh == "pstr":
+				ended = beh
+				panic("c09: handler panic")
+			case beh == "pabort":
+				ended = beh
+				panic(http.ErrAbortHandler)
+			case beh == "goexit":
+				ended = beh
+				runtime.Goexit()
+			}
+		}
 		mk := func(id int) http.Handler {
 			return http.HandlerFunc(func(w http.ResponseWriter, r *http.Request) {
 				hits = append(hits, c09Hit{id, pathvar.Vars(r)})
+				act(w, true)
 			})
 		}
 		custom := func(kind string, id int) http.Handler {
@@ -433,6 +498,7 @@ func TestVerifC09(t *testing.T) {
 				if id >= 400 && id <= 599 {
 					w.WriteHeader(id)
 				}
+				act(w, false)
 			})
 		}
 		step := func(op []string) string {
@@ -476,15 +542,29 @@ func TestVerifC09(t *testing.T) {
 				return "clean=" + path.Clean(p) + " " + v
 			case "req":
 				m, p, n := c09Arg(op, "m="), c09Arg(op, "p="), verifh.Atoi(c09Arg(op, "n="))
+				beh, _ = c09ArgOpt(op, "beh=")
+				var outer map[string]string
+				if cv, ok := c09ArgOpt(op, "ctx="); ok {
+					outer = map[string]string{}
+					for _, kv := range strings.Split(cv, ",") {
+						if i := strings.IndexByte(kv, '='); i >= 0 {
+							outer[kv[:i]] = kv[i+1:]
+						}
+					}
+				}
 				seen := map[string]bool{}
 				for i := 0; i < n; i++ {
 					req := httptest.NewRequest(http.MethodGet, "/", nil)
 					req.Method = m
 					req.URL = &url.URL{Path: p}
+					if outer != nil {
+						req = pathvar.WithVars(req, outer) // an outer router bound these
+					}
 					rec := httptest.NewRecorder()
 					hits = hits[:0]
 					chits = chits[:0]
-					rt.ServeHTTP(rec, req)
+					ended = ""
+					esc := c09Serve(rt, rec, req)
 					var o string
 					switch {
 					case len(hits)+len(chits) > 1:
@@ -502,7 +582,7 @@ func TestVerifC09(t *testing.T) {
 						sort.Strings(kv)
 						o = fmt.Sprintf("h=%d vars=%s", hits[0].id, strings.Join(kv, ","))
 						if rec.Code != 200 {
-							o += fmt.Sprintf(" code=%d", rec.Code)
+							o += fmt.Sprintf(" status=%d", rec.Code)
 						}
 					case rec.Code == http.StatusMethodNotAllowed:
 						al := strings.Split(rec.Header().Get("Allow"), ", ")
@@ -516,8 +596,15 @@ func TestVerifC09(t *testing.T) {
 					default:
 						o = fmt.Sprintf("code=%d", rec.Code)
 					}
+					if ended != "" {
+						o += " end=" + ended
+					}
+					if esc != "" {
+						o += " esc=" + esc
+					}
 					seen[o] = true
 				}
+				beh = ""
 				var outs []string
 				for o := range seen {
 					outs = append(outs, o)
